@@ -126,11 +126,23 @@ def d2_open_rejects_duplicate_first(ctx, rm: REModel):
 
 def d3_set_run_key(ctx, repo):
     f = repo.func(PP, "set_run_key_wrapper._set_run_key")
-    ifs = [s for s in f.node.body if isinstance(s, ast.If)]
-    ok = len(ifs) == 1 and A.norm(ifs[0].test) == "msg.run is None" and any("msg._replace(run=run)" in A.norm(x) for x in ifs[0].body) and not ifs[0].orelse
-    ctx.ob("C14.D3-run-key-only-filled-in", cname(f, None, "only messages without a run key get the wrapper's key"), ok,
-           "" if ok else "set_run_key_wrapper overrides run keys of nested runs", where=where(f, f.node))
-    ok = any(isinstance(s, ast.Return) and A.norm(s.value) == "msg" for s in f.node.body)
+    # what the message processor returns, for a message without and with a run key (the function specialised for each case)
+    def returned(no_key):
+        env = {"msg.run is None": no_key, "msg.run is not None": not no_key}
+        flat = list(A.walk_stmts(q.specialise(A.body(f.node), env)))
+        r = next((x for x in flat if isinstance(x, ast.Return) and x.value is not None), None)
+        if r is None:
+            return None
+        v = q.straight_line_value(flat[:flat.index(r)], r.value)
+        if isinstance(v, ast.IfExp):
+            from .. import booleval
+            t = booleval.ev(v.test, env)
+            v = v if t is None else (v.body if t else v.orelse)
+        return A.norm(v)
+    ok = returned(True) == "msg._replace(run=run)"
+    ctx.ob("C14.D3-run-key-only-filled-in", cname(f, None, "only messages without a run key get the wrapper's key"), ok and returned(False) == "msg",
+           "" if (ok and returned(False) == "msg") else "set_run_key_wrapper overrides run keys of nested runs", where=where(f, f.node))
+    ok = returned(False) == "msg" and returned(True) is not None
     ctx.ob("C14.D3-run-key-only-filled-in", cname(f, None, "returns the message"), ok, "" if ok else "message dropped", where=where(f, f.node))
     w = repo.func(PP, "set_run_key_wrapper")
     ok = any(isinstance(s, ast.If) and A.norm(s.test) == "run is None" and any(isinstance(x, ast.Raise) for x in s.body) for s in w.node.body)
